@@ -137,6 +137,13 @@ ApplyAt(S, T, v, op) ==
               LET mem == OneofSet(S, T, v, op.oo) IN R(v, IntR(IF mem = <<>> THEN 0 ELSE mem[1].num))
          [] op.op = "Range" ->
               R(v, Ret("nums", SortedNums({FieldsOf(S, T)[i].num : i \in {j \in 1..Len(FieldsOf(S, T)) : HasF(v, FieldsOf(S, T)[j])}})))
+         \* Range with a callback that returns FALSE at once: exactly one call if anything is populated
+         [] op.op = "RangeFirst" ->
+              R(v, IntR(IF \E i \in 1..Len(FieldsOf(S, T)) : HasF(v, FieldsOf(S, T)[i]) THEN 1 ELSE 0))
+         [] op.op = "MRangeFirst" -> R(v, IntR(IF DOMAIN MapOf(v, fd) = {} THEN 0 ELSE 1))
+         \* replace the unknown set while still holding the slice GetUnknown returned before:
+         \* returns what that slice shows afterwards (must still be the old bytes)
+         [] op.op = "SetUnknownHold" -> R([v EXCEPT !.u = op.u], Ret("bytes", v.u))
          [] op.op = "GetUnknown" -> R(v, Ret("bytes", v.u))
          [] op.op = "SetUnknown" -> R([v EXCEPT !.u = op.u], OK)
          [] op.op = "IsValid" -> R(v, Bool(TRUE))
@@ -197,7 +204,7 @@ Apply(S, T, root, op) ==
             ELSE LET r == ApplyAt(S, at.T, at.v, op)
                  IN [st |-> IF r.v = at.v THEN root ELSE PutPath(S, T, root, op.p, r.v), ret |-> r.ret, enabled |-> TRUE]
 
-IsRead(op) == op.op \in {"Has", "Get", "Getter", "NewField", "Which", "Range", "GetUnknown", "IsValid", "LLen", "LIsValid", "LGet",
+IsRead(op) == op.op \in {"Has", "Get", "Getter", "NewField", "Which", "Range", "RangeFirst", "MRangeFirst", "GetUnknown", "IsValid", "LLen", "LIsValid", "LGet",
                          "LNewElement", "MLen", "MIsValid", "MHas", "MGet", "MRange", "MNewValue"}
 
 (***************************************************************************)
